@@ -105,6 +105,7 @@ var checks = map[string]checkCfg{
 		Phases: []phase{rp("rapid", "^TestC15$", 8, 300, 16, 4000),
 			{Name: "enum", Variant: "plain", Tests: "^TestC15Enum$", QuickShards: 8, ThoroughShards: 8},
 			{Name: "stall", Variant: "plain", Tests: "^TestC15Stall$", QuickShards: 1, ThoroughShards: 1, Background: true},
+			{Name: "big", Variant: "plain", Tests: "^TestC15Big$", QuickShards: 4, QuickChecks: 3, ThoroughShards: 8, ThoroughChecks: 25, Background: true},
 			{Name: "fuzz", Variant: "plain", ThoroughOnly: true, Fuzz: "^FuzzC15$", FuzzSeconds: 240, ThoroughShards: 1}}},
 	"C16": {Level: "exploration", Technique: "rapid schedules with harness-owned gates inside the backend + policy-version invariants; same property under the race detector",
 		Rule:        "each case is a schedule of 3-14 steps over {start a request that parks on a backend gate (read or mutating), start UpdatePolicyOptions/UpdateExportOptions to the next stamped policy, prove the drain by probing until the first retry-later reply, open a gate, probe, fresh request judged under the policy in force, rate limiting switched on under an open connection}, optionally with a 40 ms request timeout so that parked requests time out; non-trivial = an update was started while >=1 request was parked in the backend, or rate limiting was enabled under an open connection; distinct = FNV-64 of the case JSON. Schedules are sampled, not enumerated; the Go scheduler's own choices are not controlled",
@@ -120,7 +121,8 @@ var checks = map[string]checkCfg{
 		Assumptions: append([]string{"real sockets on loopback and real time; a busy machine can only delay, never fail, an assertion"}, baseAssumptions...),
 		Phases: []phase{rp("rapid", "^TestC17$", 8, 12, 16, 120),
 			{Name: "race", Variant: "race", Tests: "^TestC17$", QuickShards: 2, QuickChecks: 8, ThoroughShards: 8, ThoroughChecks: 60},
-			{Name: "unreg", Variant: "plain", Tests: "^TestC17Unreg$", QuickShards: 6, QuickChecks: 300, ThoroughShards: 16, ThoroughChecks: 4000}}},
+			{Name: "unreg", Variant: "plain", Tests: "^TestC17Unreg$", QuickShards: 6, QuickChecks: 300, ThoroughShards: 16, ThoroughChecks: 4000},
+			{Name: "stoprace", Variant: "plain", Tests: "^TestC17StopRace$", QuickShards: 4, QuickChecks: 12, ThoroughShards: 8, ThoroughChecks: 60}}},
 	"C18": {Level: "exploration", Technique: "rapid timing sequences on a virtual clock vs exact (big.Rat) ideal token buckets; cleanup differential; handler integration",
 		Rule:        "phase limiter: each case draws a RateLimiterConfig (rates/bursts in {0,1,2,5,1000}, mount per minute in {0,1,7,60}, CleanupInterval in {1 s, 60 s, 1 h}) and 5-80 events (advance the virtual clock by {0, 1 ns, 1 ms, 1/3 s, 1 s, 7 s, 90 s, 2 h}, then AllowRequest(ip, conn) or AllowOperation(ip, type)) over 4 IPs x 3 connections x 4 operation types; phase handlers drives real READ/WRITE > 64 KiB, READDIR(PLUS) and MNT requests through HandleCall under the same clock; non-trivial = the sequence contains a refusal and a later admission; distinct = FNV-64 of the case JSON",
 		Assumptions: append([]string{"rate_limiter.go is compiled with time.Now/time.Since mechanically redirected to the harness clock (go/ast rewrite of the working-tree file at check time)", "decisions within 1e-6 tokens of the boundary are accepted either way (float64 implementation vs exact model)"}, baseAssumptions...),
